@@ -68,6 +68,8 @@ where
 {
     fn mark_dirty(&self) {
         self.reactivity.write().or_poisoned().state = ReactiveNodeState::Dirty;
+        #[cfg(leptos_verif)]
+        crate::verif_yield("memo:marked_dirty");
         self.mark_subscribers_check();
     }
 
@@ -85,6 +87,8 @@ where
             // takes the write lock.
             let subs = reactivity.read().or_poisoned().subscribers.clone();
             for sub in subs {
+                #[cfg(leptos_verif)]
+                crate::verif_yield("memo:mark_sub");
                 sub.mark_check();
             }
         }
